@@ -16,5 +16,6 @@ func Specs() map[string]*PropSpec {
 	add(&PropSpec{ID: "C03", Explanation: "reply framing", Rules: []RuleRef{rR8, rR13, rR12c}})
 	add(&PropSpec{ID: "C01", Explanation: "string and key commands", Rules: []RuleRef{rR9, rR7, rR19}})
 	add(&PropSpec{ID: "C09", Explanation: "lists", Rules: []RuleRef{rR20a, rR20b, rR20c, rR20d}})
+	add(&PropSpec{ID: "C04", Explanation: "no crash", Rules: []RuleRef{rR1}})
 	return m
 }
